@@ -172,41 +172,41 @@ SENSITIVITY = [
     ("encode_nibble: base 'a' -> 'A'", E, [("b'a' - 10 + c", "b'A' - 10 + c")]),
     ("decode_hex: form feed no longer skipped", E, [(".filter(|&b| !matches!(b, 0 | 9 | 10 | 12 | 13 | 32))", ".filter(|&b| !matches!(b, 0 | 9 | 10 | 13 | 32))"),
                                                      ("0 | 9 | 10 | 12 | 13 | 32 => true", "0 | 9 | 10 | 13 | 32 => true")]),
-    ("decode_hex: EOD '>' -> '<'", E, [("take_while(|&b| b != b'>')", "take_while(|&b| b != b'<')")]),
+    ("decode_hex: EOD '>' -> '<'", E, [("take_while(|&b| b != b'>')", "take_while(|&b| b != b'<')"), ("take_while(|b| *b != 62)", "take_while(|b| *b != 60)")]),
     ("sym_85: range end 0x75 -> 0x74", E, [("0x21 ..= 0x75", "0x21 ..= 0x74")]),
     ("decode_85: form feed no longer skipped", E, [("0 | b'\\t' | b'\\n' | 12 | b'\\r' | b' '", "0 | b'\\t' | b'\\n' | b'\\r' | b' '"),
                                                     ("0 | 9 | 10 | 12 | 13 | 32 => true", "0 | 9 | 10 | 13 | 32 => true")]),
     ("decode_85: '~' -> '}'", E, [("take_while(|&b| b != b'~')", "take_while(|&b| b != b'}')")]),
-    ("decode_85: 'z' -> 'y'", E, [("Some(b'z') =>", "Some(b'y') =>")]),
-    ("decode_85: padding of the empty tail 'u' -> 'v'", E, [("[b'u'; 5]", "[b'v'; 5]")]),
+    ("decode_85: 'z' -> 'y'", E, [("Some(b'z') =>", "Some(b'y') =>"), ("Some(0x7A) =>", "Some(0x79) =>")]),
+    ("decode_85: padding of the empty tail 'u' -> 'v'", E, [("[b'u'; 5]", "[b'v'; 5]"), ("[117; 5]", "[118; 5]")]),
     ("decode_85: '>' after '~' -> '<'", E, [("(Some(b'>'), None) => Ok(out)", "(Some(b'<'), None) => Ok(out)")]),
-    ("run_length_decode: literal runs below 127", E, [("if length < 128 {", "if length < 127 {")]),
-    ("run_length_decode: repeat base 257 -> 256", E, [("257 - length", "256 - length")]),
+    ("run_length_decode: literal runs below 127", E, [("if length < 128 {", "if length < 127 {"), ("if len_byte < 128 {", "if len_byte < 127 {")]),
+    ("run_length_decode: repeat base 257 -> 256", E, [("257 - length", "256 - length"), ("257 - len_byte", "256 - len_byte")]),
     ("PredictorType::from_u8: 3 -> Paeth", E, [("3 => Ok(PredictorType::Avg),", "3 => Ok(PredictorType::Paeth),"), ("3 => PredictorType::Avg,", "3 => PredictorType::Paeth,")]),
     ("PredictorType::from_u8: arm 4 dropped", E, [("            4 => Ok(PredictorType::Paeth),\n", ""), ("            4 => PredictorType::Paeth,\n", "")]),
     ("unpredict: PNG from 11", E, [("if predictor >= 10 {", "if predictor > 10 {")]),
     # ---- gen/extract_syn.py
-    ("is_whitespace: form feed dropped", L, [(" | b'\\x0c')", ")"), ("0x00 | 0x09 | 0x0A | 0x0C | 0x0D | 0x20", "0x00 | 0x09 | 0x0A | 0x0D | 0x20")]),
-    ("is_delimiter: '%' dropped", L, [('b"()<>[]{}/%"', 'b"()<>[]{}/"')]),
-    ("next_word: comment starts with '#'", L, [("Some(&b'%')", "Some(&b'#')")]),
-    ("next_word: a comment ends at LF only", L, [("|&b| b == b'\\n' || b == b'\\r'", "|&b| b == b'\\n'")]),
+    ("is_whitespace: form feed dropped", L, [(" | b'\\x0c')", ")"), ("0x00 | 0x09 | 0x0A | 0x0C | 0x0D | 0x20", "0x00 | 0x09 | 0x0A | 0x0D | 0x20"), ("[0u8, 9, 10, 12, 13, 32].contains(&b)", "[0u8, 9, 10, 13, 32].contains(&b)")]),
+    ("is_delimiter: '%' dropped", L, [('b"()<>[]{}/%"', 'b"()<>[]{}/"'), (" | b'/' | b'%'))", " | b'/'))")]),
+    ("next_word: comment starts with '#'", L, [("Some(&b'%')", "Some(&b'#')"), ("Some(&0x25)", "Some(&0x23)")]),
+    ("next_word: a comment ends at LF only", L, [("|&b| b == b'\\n' || b == b'\\r'", "|&b| b == b'\\n'"), ("matches!(*ch, 0x0A | 0x0D)", "matches!(*ch, 0x0A)")]),
     ("next_lexeme: \\b -> 0x07", S, [("b'b' => Some(b'\\x08')", "b'b' => Some(b'\\x07')"), ("b'b' => Some(0x08)", "b'b' => Some(0x07)")]),
     ("next_lexeme: \\n -> CR", S, [("b'n' => Some(b'\\n')", "b'n' => Some(b'\\r')"), ("b'n' => Some(0x0A)", "b'n' => Some(0x0D)")]),
     ("next_lexeme: escape arm \\f dropped", S, [("                    b'f' => Some(b'\\x0c'),\n", ""), ("                    b'f' => Some(0x0C),\n", "")]),
-    ("next_lexeme: octal digits 0..9", S, [("(b'0'..=b'7').contains", "(b'0'..=b'9').contains")]),
+    ("next_lexeme: octal digits 0..9", S, [("(b'0'..=b'7').contains", "(b'0'..=b'9').contains"), ("matches!(c, b'0'..=b'7')", "matches!(c, b'0'..=b'9')")]),
     ("next_lexeme: octal digit test is_ascii_digit (seeded C03b)", S, [("(b'0'..=b'7').contains(&c)", "c.is_ascii_digit()"), ("!(b'0'..=b'7').contains(&digit)", "!digit.is_ascii_digit()")]),
-    ("next_lexeme: octal digit test polarity", S, [("if (b'0'..=b'7').contains(&c) {", "if !(b'0'..=b'7').contains(&c) {"), ("if !(b'0'..=b'7').contains(&digit) {", "if (b'0'..=b'7').contains(&digit) {")]),
+    ("next_lexeme: octal digit test polarity", S, [("if (b'0'..=b'7').contains(&c) {", "if !(b'0'..=b'7').contains(&c) {"), ("if !(b'0'..=b'7').contains(&digit) {", "if (b'0'..=b'7').contains(&digit) {"), ("if matches!(c, b'0'..=b'7') {", "if !matches!(c, b'0'..=b'7') {")]),
     ("next_lexeme: at most 2 octal digits", S, [("for _ in 0..3 {", "for _ in 0..2 {")]),
     ("next_lexeme: octal base 10", S, [("char_code = char_code * 8 +", "char_code = char_code * 10 +")]),
-    ("hex string: form feed is not white-space", S, [(" || byte == b'\\x0c'", ""), (" || byte == 0x0C", "")]),
+    ("hex string: form feed is not white-space", S, [(" || byte == b'\\x0c'", ""), (" || byte == 0x0C", ""), (" | b'\\r' | 12 | 0)", " | b'\\r' | 0)")]),
     ("next_hex_byte: high nibble A..F + 0xB", S, [("c1 - b'A' + 0xA", "c1 - b'A' + 0xB")]),
-    ("next_hex_byte: end '>' -> '<'", S, [("b'>' => return Ok(None)", "b'<' => return Ok(None)")]),
+    ("next_hex_byte: end '>' -> '<'", S, [("b'>' => return Ok(None)", "b'<' => return Ok(None)"), ("0x3E => return Ok(None)", "0x3C => return Ok(None)")]),
     ("next_stream: LF test -> VT", L, [("if b0 == b'\\n' {", "if b0 == b'\\x0b' {"), ("if first == b'\\n' {", "if first == b'\\x0b' {")]),
     ("next_stream: CR LF skips 3", L, [("self.pos = pos + 2;", "self.pos = pos + 3;")]),
     ("MAX_DEPTH 20 -> 19", "pdf/src/parser/mod.rs", [("const MAX_DEPTH: usize = 20;", "const MAX_DEPTH: usize = 19;")]),
     ("serialize_name: '~' escaped", P, [("b'!' ..= b'~' if", "b'!' ..= b'}' if"), ("0x21 ..= 0x7E if", "0x21 ..= 0x7D if")]),
     ("serialize_name: '#' written raw", P, [('!b"()<>[]{}/%#".contains(&b)', '!b"()<>[]{}/%".contains(&b)'), ("b'/', b'%', b'#'];", "b'/', b'%', b'%'];")]),
-    ("PdfString::serialize: hex from 0x81", P, [("any(|&b| b >= 0x80)", "any(|&b| b > 0x80)")]),
+    ("PdfString::serialize: hex from 0x81", P, [("any(|&b| b >= 0x80)", "any(|&b| b > 0x80)"), ("any(|b| *b > 127)", "any(|b| *b > 128)")]),
     # ---- gen/extract_codec.py
     ("predictor_geometry: 16 bits no longer allowed", E, [("params.bits_per_component, 1 | 2 | 4 | 8 | 16)", "params.bits_per_component, 1 | 2 | 4 | 8)")]),
     ("from_kind_and_params: Crypt -> JPXDecode", E, [('"Crypt" => StreamFilter::Crypt,', '"Crypt" => StreamFilter::JPXDecode,')]),
@@ -221,7 +221,7 @@ SENSITIVITY = [
     ("decrypt: salt", C, [('b"sAlT"', 'b"sAlt"'), ("[0x73, 0x41, 0x6C, 0x54]", "[0x73, 0x41, 0x6C, 0x74]")]),
     ("decrypt: 2 bytes of the object number (seeded C06)", C, [("id.id.to_le_bytes()[..3]", "id.id.to_le_bytes()[..2]", 0), ("&id_bytes[..3]", "&id_bytes[..2]")]),
     ("decrypt: object key capped at 15", C, [("(n + 5).min(16)", "(n + 5).min(15)", 0)]),
-    ("Decoder::key capped at 15", C, [("&self.key[.. std::cmp::min(self.key_size, 16)]", "&self.key[.. std::cmp::min(self.key_size, 15)]"), ("let len = self.key_size.min(16);", "let len = self.key_size.min(15);")]),
+    ("Decoder::key capped at 15", C, [("&self.key[.. std::cmp::min(self.key_size, 16)]", "&self.key[.. std::cmp::min(self.key_size, 15)]"), ("let len = self.key_size.min(16);", "let len = self.key_size.min(15);"), ("16_usize.min(self.key_size)", "15_usize.min(self.key_size)")]),
     # ---- gen/extract_font.py
     ("parse_cid: one-byte code has length 3", F, [("1 => Ok(b[0] as u16)", "3 => Ok(b[0] as u16)"), ("1 => Ok(bytes[0] as u16)", "3 => Ok(bytes[0] as u16)")]),
     ("next_hex_byte: shift 3", S, [("(high_nibble << 4)", "(high_nibble << 3)")]),
@@ -229,8 +229,8 @@ SENSITIVITY = [
     ("next_word: '>>' -> ']]'", L, [('slice == b">>"', 'slice == b"]]"')]),
     # ---- gen/extract_xref.py
     ("HEADER without '-'", B_, [('const HEADER: &[u8] = b"%PDF-";', 'const HEADER: &[u8] = b"%PDF";'), ("b'D', b'F', b'-'];", "b'D', b'F'];")]),
-    ("header window 512", B_, [("std::cmp::min(1024, self.len())", "std::cmp::min(512, self.len())"), ("self.len().min(1024)", "self.len().min(512)")]),
-    ("XRefTable::new: generation 65534", X_, [("gen_nr: 0xffff }", "gen_nr: 0xfffe }"), ("gen_nr: 65535 }", "gen_nr: 65534 }")]),
+    ("header window 512", B_, [("std::cmp::min(1024, self.len())", "std::cmp::min(512, self.len())"), ("self.len().min(1024)", "self.len().min(512)"), ("1024_usize.min(self.len())", "512_usize.min(self.len())")]),
+    ("XRefTable::new: generation 65534", X_, [("gen_nr: 0xffff }", "gen_nr: 0xfffe }"), ("gen_nr: 65535 }", "gen_nr: 65534 }"), ("gen_nr: 0o177777 }", "gen_nr: 0o177776 }")]),
     ("XRefTable::new: filled with Promised", X_, [("entries.resize(num_objects as usize, XRef::Invalid);", "entries.resize(num_objects as usize, XRef::Promised);"), ("vec![XRef::Invalid; num_objects as usize]", "vec![XRef::Promised; num_objects as usize]")]),
     ("xref stream: fields of a type-1 entry swapped", PX, [("XRef::Raw {pos: field1 as usize, gen_nr: field2 as GenNr}", "XRef::Raw {pos: field2 as usize, gen_nr: field1 as GenNr}")]),
     ("xref stream: type 2 entry read as type 3", PX, [("2 => XRef::Stream {", "3 => XRef::Stream {")]),
@@ -278,6 +278,16 @@ SENSITIVITY = [
                                         ("                        Primitive::Reference(_) => true,\n                        _ => false,", "                        Primitive::Name(_) => true,\n                        _ => false,")]),
     ("Vec<T>: is_ref also for Null", OM, [("let is_ref = matches!(p, Primitive::Reference(_));", "let is_ref = matches!(p, Primitive::Reference(_) | Primitive::Null);"),
                                            ("                        Primitive::Reference(_) => true,\n                        _ => false,", "                        Primitive::Reference(_) | Primitive::Null => true,\n                        _ => false,")]),
+    # ---- extractors whose locals are now bound instead of named (content enum codes, storage, typed, safety)
+    ("OpBuilder::add j: 1 -> Bevel", CO, [("1 => LineJoin::Round,", "1 => LineJoin::Bevel,")]),
+    ("save: /Size = len + 1 (seeded C10b)", FI, [("trailer.size = (self.refs.len() + 2) as _;", "trailer.size = (self.refs.len() + 1) as _;")]),
+    ("Storage::update: a compressed object cannot be updated", FI, [("XRef::Stream { .. } => PlainRef { id: old.id, gen: 0 },", "XRef::Stream { .. } => panic!(),")]),
+    ("Storage::update: generation of the entry ignored", FI, [("XRef::Raw { gen_nr, .. } => PlainRef { id: old.id, gen: gen_nr },", "XRef::Raw { .. } => PlainRef { id: old.id, gen: 0 },")]),
+    ("StorageResolver::get: cached error not wrapped", FI, [("Err(e) if computed => Err(PdfError::Shared { source: e.clone()}),", "Err(e) if computed => Err(e.clone()),")]),
+    ("NameTree::walk: depth budget 31", TY, [("self.walk_limited(r, callback, 32,", "self.walk_limited(r, callback, 31,", 0)]),
+    ("ColorSpace: depth budget 4", "pdf/src/object/color.rs", [("ColorSpace::from_primitive_depth(p, resolve, 5)", "ColorSpace::from_primitive_depth(p, resolve, 4)")]),
+    ("Function type 2: domain guard 1", "pdf/src/object/function.rs", [("if raw.domain.len() < 2 {", "if raw.domain.len() < 1 {")]),
+    ("Encoding differences: gid += 1", "pdf/src/encoding.rs", [("gid = gid.wrapping_add(1);", "gid += 1;")]),
     # ---- gen/extract_pagetree.py
     ("PagesNode: /Type /Pagez", TY, [('"Pages" => Ok(PagesNode::Tree(', '"Pagez" => Ok(PagesNode::Tree(')]),
 ]
